@@ -13,11 +13,17 @@ PROVED here (full strength): iter8, bits, seek, peek, substr, read, split_at, de
 to_bytes, to_bytes_with_padding, bytestr, slice, to_hex_string, append (both paths), insert, invert,
 from_hex_str, BitvecBuilder::from_bin_str;
 isolation ("operands and bystanders are never modified") for seek/peek/substr/read/split_at/clone/drop/detach
-and, through `Frame`, for append/insert/invert.
+and, through `Frame`, for append/insert/invert;
+**every operation sequence** (`pool_history_refines`, `pool_never_panics`, `other_values_are_untouched`): the pool
+machine of Model/BitstrPool.lean — handles into the shared, reference-counted buffer heap, created, cloned, sliced, read,
+detached, inverted, appended to, inserted into and dropped in any order — is, step for step, the machine on plain
+(start, bits) values; what makes it go through is the counting invariant of Proofs/BitstrPool.lean (a buffer's count is at
+least the number of live handles into it, so a write in place is a write nobody else can see).
 
 -/
 import XehModel.Proofs.BitstrParse
 import XehModel.Proofs.BitstrCodec
+import XehModel.Proofs.BitstrPoolStep
 
 namespace Xeh.C04
 open Xeh Xeh.Bits Xeh.Bitstr
@@ -337,6 +343,160 @@ theorem fromBinStr_refines (h : Heap) (cs : List Char) :
       rintro ⟨p, rfl⟩
       obtain ⟨e1, e2⟩ := packed_value h buf l p
       exact ⟨e1, e2, trivial⟩
+
+/-! ### every operation sequence (the quantifier of the property: "all ownership situations reachable through the public
+    API …, all operation sequences") -/
+
+/-- **Any history.** Start from no values at all and run ANY sequence of pool operations (Model/BitstrPool.lean: new
+    values owned or static, clone, drop, read, peek, seek, substr, split, detach, invert, append, insert — the receivers of
+    the last four are consumed, as in the Rust API). If the concrete machine — handles into shared buffers with reference
+    counts, copy on write when the count is above one, write in place when it is one — gets through, then at the end every
+    live slot holds a well-formed handle whose start and whose bits are exactly what the machine on PLAIN values
+    (`APool.run`: lists of bits and a start position, no buffers, no sharing) computes for that slot, and the empty slots
+    are the same. Whatever ownership situation the history produced — a slice whose parent is alive, or dropped; a static
+    buffer; the result of an earlier append; stale bits behind the end; a buffer shared by five handles — is one of the
+    states this theorem quantifies over. -/
+theorem pool_history_refines (ops : List PoolOp) (p' : Pool) (h : Pool.run ops {} = some p') :
+    p'.slots.length = (APool.run ops []).length ∧
+    (∀ (i : Nat) (s : Handle), p'.slots[i]? = some (some s) →
+      WF p'.heap s ∧ (APool.run ops [])[i]? = some (some (s.start, bits p'.heap s))) ∧
+    (∀ (i : Nat), p'.slots[i]? = some none → (APool.run ops [])[i]? = some none) ∧
+    (∀ b, cnt p'.slots b ≤ (p'.heap.buf b).rc) := by
+  have inv := run_refines ops {} [] PoolInv.empty p' h
+  exact ⟨inv.len, inv.live, inv.dead, inv.count⟩
+
+/-- one step, from any state the invariant describes (so: from any state a history reaches) -/
+theorem pool_step_refines (p : Pool) (a : List (Option AVal)) (inv : PoolInv p a) (op : PoolOp) (p' : Pool)
+    (hs : p.step op = some p') : PoolInv p' (APool.step a op) := step_refines p a inv op p' hs
+
+/-- **No operation the API can express gets stuck**: on every state a history reaches, every operation with live operands
+    (two different ones for `append` / `insert`: the receiver is moved) returns — `detach`, `invert`, `append`, `insert`
+    never panic, whatever the alignment, the slack and the sharing -/
+theorem pool_never_panics (ops : List PoolOp) (p : Pool) (h : Pool.run ops {} = some p) (op : PoolOp)
+    (hv : op.Valid p.slots) : ∃ p', p.step op = some p' :=
+  step_total p _ (run_refines ops {} [] PoolInv.empty p h) op hv
+
+/-- the slot an operation replaces (its receiver), if any; every other operation only adds values -/
+def writes : PoolOp → Option Nat
+  | .drop i | .read i _ | .detach i | .invert i | .append i _ | .insert i _ _ => some i
+  | _ => none
+
+theorem astep_keeps (a : List (Option AVal)) (op : PoolOp) (j : Nat) (hj : j < a.length) (hw : writes op ≠ some j) :
+    (APool.step a op)[j]? = a[j]? := by
+  have happ : ∀ x : List (Option AVal), (a ++ x)[j]? = a[j]? := fun x => List.getElem?_append_left hj
+  have hset : ∀ (i : Nat) (v : Option AVal), i ≠ j → (a.set i v)[j]? = a[j]? := fun i v hij => List.getElem?_set_ne hij
+  cases op with
+  | newVec bytes => exact happ _
+  | newStatic bytes => exact happ _
+  | empty => exact happ _
+  | clone i => simp only [APool.step]; split <;> first | exact happ _ | rfl
+  | drop i =>
+    have hij : i ≠ j := fun e => hw (by simp [writes, e])
+    simp only [APool.step]; split <;> first | exact hset _ _ hij | rfl
+  | read i n =>
+    have hij : i ≠ j := fun e => hw (by simp [writes, e])
+    simp only [APool.step]
+    split
+    · split
+      · rw [List.getElem?_append_left (by simpa using hj)]; exact hset _ _ hij
+      · rfl
+    · rfl
+  | peek i n =>
+    simp only [APool.step]
+    split
+    · split
+      · exact happ _
+      · rfl
+    · rfl
+  | seek i pos =>
+    simp only [APool.step]
+    split
+    · split
+      · exact happ _
+      · rfl
+    · rfl
+  | substr i x y =>
+    simp only [APool.step]
+    split
+    · split
+      · exact happ _
+      · rfl
+    · rfl
+  | split i k =>
+    simp only [APool.step]
+    split
+    · split
+      · exact happ _
+      · rfl
+    · rfl
+  | detach i =>
+    have hij : i ≠ j := fun e => hw (by simp [writes, e])
+    simp only [APool.step]; split <;> first | exact hset _ _ hij | rfl
+  | invert i =>
+    have hij : i ≠ j := fun e => hw (by simp [writes, e])
+    simp only [APool.step]; split <;> first | exact hset _ _ hij | rfl
+  | append i k =>
+    have hij : i ≠ j := fun e => hw (by simp [writes, e])
+    simp only [APool.step]; split <;> first | exact hset _ _ hij | rfl
+  | insert i k m =>
+    have hij : i ≠ j := fun e => hw (by simp [writes, e])
+    simp only [APool.step]
+    split
+    · split <;> exact hset _ _ hij
+    · rfl
+
+/-- **Operands and bystanders are never modified** — over histories, and however the buffers are shared: an operation
+    leaves every value other than its consumed receiver exactly as it was — the same start, the same bits — also a value
+    that lives in the very buffer the operation writes to (a clone held by a snapshot of the interpreter, a slice of the
+    same input, the argument of `append`) -/
+theorem other_values_are_untouched (p : Pool) (a : List (Option AVal)) (inv : PoolInv p a) (op : PoolOp) (p' : Pool)
+    (hs : p.step op = some p') (j : Nat) (s : Handle) (hj : p.slots[j]? = some (some s)) (hw : writes op ≠ some j) :
+    ∃ s', p'.slots[j]? = some (some s') ∧ s'.start = s.start ∧ bits p'.heap s' = bits p.heap s := by
+  have inv' := step_refines p a inv op p' hs
+  have hlt : j < a.length := by rw [← inv.len]; exact (List.getElem?_eq_some_iff.mp hj).1
+  have ha : (APool.step a op)[j]? = some (some (s.start, bits p.heap s)) := by
+    rw [astep_keeps a op j hlt hw]; exact (inv.live j s hj).2
+  have hlt' : j < p'.slots.length := by
+    rw [inv'.len]
+    exact (List.getElem?_eq_some_iff.mp ha).1
+  cases hx : p'.slots[j]? with
+  | none => exact absurd hx (by simp; omega)
+  | some o =>
+    cases o with
+    | none => have := inv'.dead j hx; rw [ha] at this; cases this
+    | some s' =>
+      have := (inv'.live j s' hx).2
+      rw [ha] at this
+      simp only [Option.some.injEq, Prod.mk.injEq] at this
+      exact ⟨s', rfl, this.1.symm, this.2.symm⟩
+
+/-- **… and what is observed of a value depends on its bits alone, after any history**: on every state a history reaches,
+    iteration, byte and hex export and equality of live values answer exactly what the plain-list operations of
+    Model/Bits.lean answer on the values the PLAIN machine holds in those slots — wherever the handles lie in their
+    buffers, whoever shares those buffers, whatever stale bits surround them. -/
+theorem pool_queries_see_only_the_bits (ops : List PoolOp) (p : Pool) (h : Pool.run ops {} = some p)
+    (i : Nat) (s : Handle) (hi : p.slots[i]? = some (some s)) :
+    ∃ l, (APool.run ops [])[i]? = some (some (s.start, l)) ∧
+      (p.heap.view s).iter8 = .ok (Bits.iter8 l) ∧ (p.heap.view s).bitsIter = .ok (bitNums l) ∧
+      (p.heap.view s).toBytes = .ok (Bits.toBytes l) ∧ (p.heap.view s).bytestr = .ok (Bits.toBytes l) ∧
+      (p.heap.view s).toBytesWithPadding = .ok (toBytesPad l) ∧ (p.heap.view s).toHexString = .ok (toHex l) ∧
+      ∀ (j : Nat) (t : Handle), p.slots[j]? = some (some t) →
+        ∃ m, (APool.run ops [])[j]? = some (some (t.start, m)) ∧
+          (p.heap.view s).eqWith (p.heap.view t) = .ok (decide (l = m)) := by
+  obtain ⟨_, live, _, _⟩ := pool_history_refines ops p h
+  obtain ⟨ws, ha⟩ := live i s hi
+  refine ⟨bits p.heap s, ha, iter8_refines _ _ ws, bitsIter_refines _ _ ws, toBytes_refines _ _ ws,
+    bytestr_refines _ _ ws, toBytesWithPadding_refines _ _ ws, toHexString_refines _ _ ws, ?_⟩
+  intro j t hj
+  obtain ⟨wt, hb⟩ := live j t hj
+  exact ⟨bits p.heap t, hb, eqWith_refines _ _ _ ws wt⟩
+
+/-- non-vacuity of the history theorems: a buffer shared by three handles, one of them detached and inverted in place,
+    another appended to — the concrete machine gets through, and the values are the plain ones -/
+example :
+    let ops : List PoolOp := [.newVec [0xab, 0xcd], .substr 0 4 12, .clone 1, .invert 1, .append 2 0, .read 0 3, .insert 0 2 1, .drop 2]
+    ((Pool.run ops {}).map fun p => p.slots.map fun o => o.map fun s => (s.start, bits p.heap s)) = some (APool.run ops []) := by
+  decide +kernel
 
 /-- non-vacuity: a well-formed and a malformed hex string -/
 example : parseHex ['a', ' ', '5'] = .ok [true, false, true, false, false, true, false, true] ∧
